@@ -41,7 +41,8 @@ def gen_case(rng, tier):
 
 def one(sh, case, driver='generated'):
     from bycycle.cyclepoints import find_extrema
-    kw = {k: case[k] for k in ('boundary', 'first_extrema', 'filter_kwargs', 'pad')}
+    import copy
+    kw = {k: copy.deepcopy(case[k]) for k in ('boundary', 'first_extrema', 'filter_kwargs', 'pad')}
     vs = []
     w0 = attach.COUNTS['C02:windows']
     t0 = attach.COUNTS['C02:windows_with_ties']
